@@ -89,10 +89,10 @@ struct Runner{ // one copy of the state with its own logging closures
     explicit Runner(TasOptimization::ParticleSwarmState const &s, Rng const &r) : st(s), stream(r){}
 };
 
-enum EditKind{ e_clear_cache, e_clear_best, e_set_pos, e_set_vel, e_set_best, e_new_objective };
-struct Edit{ EditKind kind; Vec data; bool raw = false; Objective obj; Domain dom; };
+enum EditKind{ e_clear_cache, e_clear_best, e_set_pos, e_set_vel, e_set_best, e_new_objective, e_init_box };
+struct Edit{ EditKind kind; Vec data; bool raw = false; Objective obj; Domain dom; uint64_t seed = 0; };
 static const char* edit_name(EditKind k){
-    static const char *n[] = {"clearCache", "clearBestParticles", "setParticlePositions", "setParticleVelocities", "setBestParticlePositions", "newObjective"};
+    static const char *n[] = {"clearCache", "clearBestParticles", "setParticlePositions", "setParticleVelocities", "setBestParticlePositions", "newObjective", "initializeParticlesInsideBox"};
     return n[k];
 }
 struct Segment{ std::vector<Edit> edits; int total = 0; std::vector<int> split; };
@@ -140,7 +140,9 @@ void mon_c20(CaseCtx &c, Rng &rng){
     for(int s=0; s<nseg; s++){
         Segment sg;
         auto push = [&](EditKind k){ Edit e; e.kind = k; sg.edits.push_back(e); };
-        auto push_set_pos = [&](){ Edit e; e.kind = e_set_pos; e.data = random_points(N, 0.3); e.raw = rng.coin(0.3); sg.edits.push_back(e); };
+        auto push_set_pos = [&](){ Edit e; e.kind = e_set_pos; e.data = random_points(N, 0.3); e.raw = rng.coin(0.3);
+                                   if (rng.coin(0.25)){ e.kind = e_init_box; e.seed = rng.next(); e.data.clear(); } // re-initialisation is another way of replacing the positions
+                                   sg.edits.push_back(e); };
         auto push_set_vel = [&](){ Edit e; e.kind = e_set_vel; e.data = random_points(N, 0.0); for(size_t i=0; i<e.data.size(); i++) e.data[i] = 0.3 * (e.data[i] - blo[i % D]); e.raw = rng.coin(0.3); sg.edits.push_back(e); };
         auto push_set_best = [&](){
             Edit e; e.kind = e_set_best; e.data = random_points(N + 1, 0.2); e.raw = rng.coin(0.3);
@@ -373,6 +375,8 @@ void mon_c20(CaseCtx &c, Rng &rng){
         case e_set_vel: if (e.raw) r.st.setParticleVelocities(e.data.data()); else r.st.setParticleVelocities(e.data); break;
         case e_set_best: if (e.raw) r.st.setBestParticlePositions(e.data.data()); else r.st.setBestParticlePositions(e.data); break;
         case e_new_objective: break;
+        case e_init_box: { Rng q(e.seed); auto r01 = [&q]()->double{ return q.uni(); };
+                           if (e.raw) r.st.initializeParticlesInsideBox(blo.data(), bhi.data(), r01); else r.st.initializeParticlesInsideBox(blo, bhi, r01); break; }
         }
     };
     auto model_edit = [&](Edit const &e){
@@ -387,7 +391,7 @@ void mon_c20(CaseCtx &c, Rng &rng){
             Vec p = S.st.getParticlePositions();
             for(size_t i=0; i<N; i++) if (m_cache && cur[i] == 1 && cur_in[i]) K[i].add(&p[i * D], d, cur_val[i]);
             break; }
-        case e_set_pos: for(size_t i=0; i<N; i++) cur[i] = m_cache ? 2 : 0; break;
+        case e_set_pos: case e_init_box: for(size_t i=0; i<N; i++) cur[i] = m_cache ? 2 : 0; break;
         case e_set_vel: break;
         case e_set_best:
             for(auto &k : K) k.pts.clear();
@@ -413,7 +417,7 @@ void mon_c20(CaseCtx &c, Rng &rng){
             apply_edit(S, e); apply_edit(A, e); apply_edit(B, e);
             model_edit(e);
             // a setter may drop the cache (the public flag says so): the model then expects the re-evaluation that clearCache() implies
-            if ((e.kind == e_set_pos || e.kind == e_set_best) && m_cache && !S.st.isCacheInitialized()){ Edit cc; cc.kind = e_clear_cache; model_edit(cc); c.count("setter_dropped_cache"); }
+            if ((e.kind == e_set_pos || e.kind == e_init_box || e.kind == e_set_best) && m_cache && !S.st.isCacheInitialized()){ Edit cc; cc.kind = e_clear_cache; model_edit(cc); c.count("setter_dropped_cache"); }
             check_flags_after_edit(e);
         }
         // S: one iteration per call (a zero-iteration segment is one call with 0)
